@@ -37,6 +37,7 @@ type Entry struct {
 	RepoDeny  []string `json:",omitempty"`
 	Platform  bool     `json:",omitempty"`
 	OCIOnly   bool     `json:",omitempty"` // mediaTypes restricted to OCI
+	DefDocker bool     `json:",omitempty"` // defaults.mediaTypes lists the Docker types only: applies when the entry has no list of its own
 	Backup    string   `json:",omitempty"`
 	Referrers bool     `json:",omitempty"`
 	DigTags   bool     `json:",omitempty"`
@@ -178,6 +179,17 @@ func yamlList(l []string) string {
 	return "[" + strings.Join(q, ", ") + "]"
 }
 
+// mediaAllowed: the entry's own media-type list wins; without one the defaults' list applies; without either all types
+func mediaAllowed(e Entry, mt string) bool {
+	if e.OCIOnly {
+		return !strings.Contains(mt, "docker")
+	}
+	if e.DefDocker {
+		return strings.Contains(mt, "docker")
+	}
+	return true
+}
+
 func runCase(c Case, outDir string, res *lib.Result) (ret []string) {
 	defer res.Recover(c)
 	return runCaseRaw(c, outDir, res)
@@ -244,7 +256,11 @@ func runCaseRaw(c Case, outDir string, res *lib.Result) []string {
 	// configuration
 	e := c.Entry
 	var sb strings.Builder
-	fmt.Fprintf(&sb, "version: 1\ncreds:\n  - registry: %s\n    tls: disabled\n  - registry: %s\n    tls: disabled\ndefaults:\n  parallel: %d\n  skipDockerConfig: true\nsync:\n", ss.addr, ts.addr, c.Parallel)
+	defMT := ""
+	if e.DefDocker {
+		defMT = "  mediaTypes: [\"application/vnd.docker.distribution.manifest.v2+json\", \"application/vnd.docker.distribution.manifest.list.v2+json\"]\n"
+	}
+	fmt.Fprintf(&sb, "version: 1\ncreds:\n  - registry: %s\n    tls: disabled\n  - registry: %s\n    tls: disabled\ndefaults:\n  parallel: %d\n  skipDockerConfig: true\n%ssync:\n", ss.addr, ts.addr, c.Parallel, defMT)
 	switch e.Type {
 	case "image":
 		fmt.Fprintf(&sb, "  - source: %s/%s:%s\n    target: %s/%s:%s\n    type: image\n", ss.addr, e.Repo, e.Tag, ts.addr, tgtRepoOf(e.Repo), e.Tag)
@@ -363,7 +379,7 @@ func runCaseRaw(c Case, outDir string, res *lib.Result) []string {
 				if e.Backup != "" {
 					expectedTouched[tr+"\x00"+strings.ReplaceAll(e.Backup, "{{.Ref.Tag}}", t)] = true
 				}
-				mediaOK := !e.OCIOnly || !strings.Contains(im.mt, "docker")
+				mediaOK := mediaAllowed(e, im.mt)
 				want := im.digest
 				if e.Platform && im.plat != "" {
 					want = im.plat
@@ -493,7 +509,7 @@ func coqRepo(c Case, repo, tr string, src map[string]int, imgs []image, before, 
 		if e.Platform && im.plat != "" {
 			plat = fmt.Sprintf("(Some %d)", dg(im.plat))
 		}
-		st = append(st, fmt.Sprintf("mkT %d %d %s %s", id(t), dg(im.digest), lib.CoqBool(!e.OCIOnly || !strings.Contains(im.mt, "docker")), plat))
+		st = append(st, fmt.Sprintf("mkT %d %d %s %s", id(t), dg(im.digest), lib.CoqBool(mediaAllowed(e, im.mt)), plat))
 	}
 	// the matching relation as a table: filter number, tag number
 	var allow, deny []string
@@ -573,6 +589,7 @@ func genCase(r *lib.Rand) Case {
 		}
 	}
 	e.Platform, e.OCIOnly = r.Chance(30), r.Chance(25)
+	e.DefDocker = r.Chance(25)
 	if r.Chance(40) {
 		e.Backup = lib.Pick(r, []string{"bak-{{.Ref.Tag}}", "old-{{.Ref.Tag}}"})
 	}
@@ -628,7 +645,7 @@ func Run(o lib.Opts) {
 		kb, _ := json.Marshal(c)
 		terms := runCase(c, o.Out, res)
 		e := c.Entry
-		nontriv := len(e.Allow)+len(e.Deny)+len(e.RepoAllow) > 0 || e.Platform || e.OCIOnly || e.Backup != ""
+		nontriv := len(e.Allow)+len(e.Deny)+len(e.RepoAllow) > 0 || e.Platform || e.OCIOnly || e.DefDocker || e.Backup != ""
 		if _, dup := seen[string(kb)]; !dup && nontriv {
 			res.Distinct++
 		}
